@@ -54,7 +54,9 @@ def check_segment_text(parser, version, seg, text, row_names, rec, kind, ec=None
     name, fields = er7ref.tokenize_segment(text, ec or er7ref.STD)
     rec.evaluation((kind, version, text))
     try:
-        out = parser.parse_segment(text, version=version, encoding_chars=gen.full_ec(ec) if ec else None).to_er7()
+        sg = parser.parse_segment(text, version=version, encoding_chars=gen.full_ec(ec) if ec else None)
+        # a parentless segment encodes with the characters it is given
+        out = sg.to_er7(gen.full_ec(ec)) if ec else sg.to_er7()
     except Exception as e:
         cause, row = _cause(version, seg, row_names, e)
         rec.violation(cause, case, {'exc': repr(e)[:200]}, row=row)
@@ -150,14 +152,27 @@ def run_segments(spec, rec):
     v = spec['version']
     rng = gen.rng_for(spec['seed'], 'c01-seg', v)
     segs = sorted(s for s, rows in tables.segments(v).items() if rows and s != 'MSH' and gen.usable_rows(v, s))
-    ec = gen.full_ec(er7ref.std(v))
+    std = gen.full_ec(er7ref.std(v))
+    prev = None
     for i in range(spec['n']):
         seg = segs[i % len(segs)] if i < len(segs) else rng.choice(segs)
+        ec = std
+        if i % 4 == 3:
+            # explicit non-default delimiters (also: the previous set with only the escape character changed, in the same
+            # process)
+            ec = gen.delimiter_set(rng, v)
+            if prev is not None and i % 8 == 7:
+                ec = dict(prev, ESCAPE=rng.choice([c for c in '!$%*+;<=>?@' if c not in prev.values()]))
+            prev = ec
+            rec.count('segments_with_custom_delimiters')
         line, names = gen.segment_line(rng, v, seg, ec)
         if not er7ref.canonical_segment(line, ec):
             rec.inconclusive_reason('generator left the canonical domain: %r' % line[:120])
             return
-        check_segment_text(parser, v, seg, line, names, rec, 'rand')
+        if ec is std:
+            check_segment_text(parser, v, seg, line, names, rec, 'rand')
+        else:
+            check_segment_text(parser, v, seg, line, names, rec, 'rand-ec', ec)
         name, fields = er7ref.tokenize_segment(line, ec)
         rec.seen('shapes', str(er7ref.shape(fields))[:80]) if i % 50 == 0 else None
         if i < 2:
@@ -285,6 +300,19 @@ def run_messages(spec, rec):
                 rec.count('messages_with_out_of_structure_segments')
             for fg in (True, False):
                 check_message(parser, v, name, text, fg, rec)
+            if rng.random() < 0.3:
+                # the same kind of message under non-default delimiters; and under a structure name the version does not
+                # know (the parser then falls back to a flat message): the delimiters of MSH-1/MSH-2 still govern
+                ec = gen.delimiter_set(rng, v)
+                text2, _, _ = build_message(rng, v, name, node, 'random', 2, ec=ec)
+                for fg in (True, False):
+                    check_message(parser, v, name, text2, fg, rec)
+                lines2 = text2.split('\r')
+                c = ec['COMPONENT']
+                unknown = structref.msh_line(v, name, ec, msh9='XQX' + c + 'Y77') if len(tables.components(v, 'MSG')) < 3 \
+                    else structref.msh_line(v, name, ec, msh9='XQX' + c + 'Y77' + c + 'XQX_Y77')
+                check_message(parser, v, 'XQX_Y77', '\r'.join([unknown] + lines2[1:]), True, rec)
+                rec.count('messages_with_custom_delimiters', 3)
             if r == 0 and rec.counters.get('message_identity_comparisons', 0) < 4:
                 rec.sample({'kind': 'message', 'version': v, 'text': text[:400]})
     rec.seen('versions_messages', v)
